@@ -42,8 +42,8 @@ impl Property for C22 {
 
     fn runs(&self, tier: Tier) -> u64 {
         match tier {
-            Tier::Quick => 11 * 12,
-            Tier::Thorough => 11 * 600,
+            Tier::Quick => 11 * 60,
+            Tier::Thorough => 11 * 3000,
         }
     }
 
